@@ -23,7 +23,12 @@ DESC = [('D', 'def'), ('D2', 'def'), ('D', 'novec')]     # the same per-field co
 BIG = [('L', 'def'), ('L2', 'def'), ('L', 'uonly')]     # 41 fields: generated code of more than 4 KiB per direction, a cache file of more than 8 KiB
 
 
+NAMED = [('U', 'def'), ('U2', 'def'), ('U', 'novec')]   # field names that are not ascii (each with one letter beyond ascii)
+
+
 def alphabet(tier, big=False):
+    if big == 'names':
+        return [('define',) + d for d in NAMED] + CTRL
     if big == 'desc':
         return [('define',) + d for d in DESC] + CTRL
     if big:
@@ -133,7 +138,9 @@ def _shard(shard, nshards, payload):
     idx = 0
     replayed = 0
     seeds = [(), (('define', 'A', 'def'), ('newproc',)), (('define', 'A2', 'noann'), ('newproc',), ('define', 'A2', 'noann'), ('newproc',))]
-    if payload.get('big') == 'desc':
+    if payload.get('big') == 'names':
+        seeds = [(), (('define', 'U2', 'def'), ('newproc',), ('define', 'U2', 'def'), ('newproc',))]
+    elif payload.get('big') == 'desc':
         seeds = [(), (('define', 'D2', 'def'), ('newproc',), ('define', 'D2', 'def'), ('newproc',))]
     elif payload.get('big'):
         seeds = [(), (('define', 'L', 'def'), ('newproc',), ('define', 'L', 'def'), ('newproc',))]
@@ -268,6 +275,7 @@ def run(tier):
     st = common.merge_all(common.run_sharded(_shard, {'tier': tier, 'depth': depth, 'replays': 3 if tier == 'quick' else 12}))
     st.merge(common.merge_all(common.run_sharded(_shard, {'tier': tier, 'depth': depth + 1, 'replays': 2, 'big': True})))
     st.merge(common.merge_all(common.run_sharded(_shard, {'tier': tier, 'depth': depth, 'replays': 2, 'big': 'desc'})))
+    st.merge(common.merge_all(common.run_sharded(_shard, {'tier': tier, 'depth': depth, 'replays': 2, 'big': 'names'})))
     st.merge(common.merge_all(common.run_sharded(real_shard, {'tier': tier})))
     st.merge(common.merge_all(common.run_sharded(similar_shard, {'tier': tier})))
     if not st.samples:
@@ -279,7 +287,7 @@ def run(tier):
         'real_process_replays': st.n.get('real_replays', 0), 'definitions_checked': st.n.get('definitions', 0),
         'real_process_histories_with_mixed_optimisation_levels': st.n.get('real_histories', 0), 'real_definitions': st.n.get('real_definitions', 0),
         'rule': 'all histories of length <=%d (also started from a cache directory that earlier processes filled for A resp. A2 with bytecode) ending in a definition over %d operations (define x %d declaration/option pairs incl. two declarations whose '
-                'generated source has the same length, new process, clock tick, bytecode toggle, forget sources), and all histories one longer over two LONG declarations (41 fields, a cache file of more than 8 KiB) that differ in the byte order of their last field, and all histories over two declarations whose per-field code is identical but whose described field has another descriptor (AutoLength / a user-written one without sync hook), on real files with harness time stamps; plus all pairs of declarations that differ only in the ORDER of two three-letter field names over a three-letter alphabet (351 pairs, thorough 2016), defined one right after the other in one module '
+                'generated source has the same length, new process, clock tick, bytecode toggle, forget sources), and all histories one longer over two LONG declarations (41 fields, a cache file of more than 8 KiB) that differ in the byte order of their last field, and all histories over two declarations whose per-field code is identical but whose described field has another descriptor (AutoLength / a user-written one without sync hook), and all histories over two declarations whose field names are not ascii (tama\u00f1o, se\u00f1al), on real files with harness time stamps; plus all pairs of declarations that differ only in the ORDER of two three-letter field names over a three-letter alphabet (351 pairs, thorough 2016), defined one right after the other in one module'
                 '(everything within one second unless a tick occurs); every definition and every class still alive in the process checked on a battery '
                 'against its own declaration; transitions = interposed file-system steps; states = distinct final (directory contents+mtimes, clock)' % (
                     depth, len(alphabet(tier)), len(alphabet(tier)) - len(CTRL)),
